@@ -7,7 +7,7 @@ import re
 import typing
 from typing import (
         Any, cast, Dict, Iterable, Mapping, MutableMapping, MutableSequence,
-        List, Sequence, Tuple, Union)
+        List, Optional, Sequence, Tuple, Union)
 from typing_extensions import Type
 
 import yaml
@@ -288,6 +288,36 @@ def strip_tags(resolver: Resolver, node: yaml.Node) -> None:
         for key_node, value_node in node.value:
             strip_tags(resolver, key_node)
             strip_tags(resolver, value_node)
+
+
+def find_recursive_alias(
+        node: yaml.Node, ancestors: Tuple[yaml.Node, ...] = ()
+        ) -> Optional[yaml.Node]:
+    """Finds a node that contains an alias to itself, if any.
+
+    PyYAML represents an alias by the anchored node object itself, so
+    a self-referential document (``&a [*a]``) is a cyclic node graph.
+
+    Args:
+        node: Head of the tree to search.
+        ancestors: The nodes on the path from the root to node.
+
+    Returns:
+        A node that is its own descendant, or None if there is none.
+    """
+    if isinstance(node, yaml.ScalarNode):
+        return None
+    if any(node is ancestor for ancestor in ancestors):
+        return node
+    if isinstance(node, yaml.MappingNode):
+        children = [n for key_value in node.value for n in key_value]
+    else:
+        children = list(node.value)
+    for child in children:
+        found = find_recursive_alias(child, ancestors + (node,))
+        if found is not None:
+            return found
+    return None
 
 
 def cjoin(conjuction: str, words: Iterable[str]) -> str:
